@@ -300,6 +300,17 @@ def walk_under(fn_node, decide):
         if isinstance(st, (ast.Assign, ast.AnnAssign, ast.AugAssign)):
             tg = st.targets if isinstance(st, ast.Assign) else [st.target]
             names = [n for t in tg for n in targets(t)]
+            v = st.value
+            if len(tg) == 1 and isinstance(tg[0], ast.Name) and not isinstance(st, ast.AugAssign) and (
+                    isinstance(v, ast.BoolOp) or (isinstance(v, ast.UnaryOp) and isinstance(v.op, ast.Not))):
+                # a local naming a compound test (`both = isinstance(a, K) and isinstance(b, K)`): the test is decided here,
+                # and a later `if both` sees that decision
+                out = []
+                for en, t in truth(v, env):
+                    en = dict(kill(en, names))
+                    en[tg[0].id] = t
+                    out.append(en)
+                return out
             return [kill(en, names) for en in value(st.value, env)]
         if isinstance(st, ast.Expr):
             return value(st.value, env)
